@@ -24,6 +24,7 @@ func init() {
 		Entries: []EntrySpec{
 			{Pkg: "biscuit", Func: "VerifC04Verdict", Quick: sc("authFacts", 1, "authRule", 2, "authCheck", 2, "policies", 1), Thorough: sc("authFacts", 2, "authRule", 2, "authCheck", 3, "policies", 2), Covers: []string{"allow", "failed"}},
 			{Pkg: "biscuit", Func: "VerifC04Verdict", Quick: sc("authFacts", 1, "blocks", 1, "blkFacts", 1, "blkRule", 2, "blkCheck", 1), Thorough: sc("authFacts", 1, "authRule", 1, "blocks", 1, "blkFacts", 1, "blkRule", 2, "blkCheck", 2), Covers: []string{"allow", "failed"}},
+			{Pkg: "biscuit", Func: "VerifC04Incremental", Quick: sc("authFacts", 1, "azRule", 1, "policies", 1, "polMode", 2), Thorough: sc("authFacts", 1, "azFacts", 1, "azRule", 2, "policies", 1, "polMode", 2), Covers: []string{"decided", "allow"}},
 			// authority-level rules next to a block with facts and a check: they must not be applied to the block's facts
 			{Pkg: "biscuit", Func: "VerifC04Verdict", Quick: sc("authFacts", 0, "authRule", 1, "azRule", 1, "blocks", 1, "blkFacts", 1, "blkCheck", 2), Thorough: sc("authFacts", 0, "authRule", 2, "azRule", 1, "blocks", 1, "blkFacts", 1, "blkCheck", 2), Covers: []string{"nomatch", "failed"}},
 			{Pkg: "biscuit", Func: "VerifC04Verdict", Quick: sc("authFacts", 2, "policies", 2, "polMode", 1, "polq", 2), Thorough: sc("authFacts", 2, "authRule", 1, "policies", 2, "polMode", 2, "polq", 2), Covers: []string{"allow", "denied", "nomatch"}},
@@ -57,16 +58,17 @@ func init() {
 		Entries: []EntrySpec{
 			{Pkg: "biscuit", Func: "VerifC02Attenuation",
 				Quick:    sc2(sc("authFacts", 1, "authCheck", 1), "newFacts", 1, "newRule", 2, "newCheck", 1),
-				Thorough: sc2(sc("authFacts", 1, "authRule", 1, "authCheck", 1, "azFacts", 1, "azCheck", 1), "newFacts", 1, "newRule", 2, "newCheck", 2),
+				Thorough: sc2(sc("authFacts", 1, "authCheck", 1, "azFacts", 1), "newFacts", 1, "newRule", 2, "newCheck", 2),
 				Covers:   []string{"child-allowed", "child-refused"}},
 			{Pkg: "biscuit", Func: "VerifC02Attenuation",
 				Quick:    sc2(sc("authFacts", 1, "azCheck", 1, "policies", 2), "newFacts", 2, "newRule", 0, "newCheck", 0),
-				Thorough: sc2(sc("authFacts", 1, "blocks", 1, "blkFacts", 1, "blkCheck", 1, "azCheck", 1, "policies", 2), "newFacts", 1, "newRule", 2, "newCheck", 1),
+				Thorough: sc2(sc("authFacts", 1, "azCheck", 1, "policies", 2), "newFacts", 2, "newRule", 1, "newCheck", 0),
 				Covers:   []string{"child-allowed", "child-refused"}},
 			{Pkg: "biscuit", Func: "VerifC02Attenuation",
 				Quick:    sc2(sc("authFacts", 3, "blocks", 1, "blkFacts", 1, "blkCheck", 1), "newFacts", 1, "newRule", 0, "newCheck", 0),
 				Thorough: sc2(sc("authFacts", 3, "blocks", 1, "blkFacts", 1, "blkCheck", 1, "azFacts", 1), "newFacts", 2, "newRule", 0, "newCheck", 0),
 				Covers:   []string{"child-allowed", "child-refused"}},
+			{Pkg: "biscuit", Func: "VerifC02Dangling", Quick: p("arities", 1, "setsecond", 2, "polq", 1), Thorough: p("arities", 1, "setsecond", 2, "polq", 1), Covers: []string{"decided"}},
 		},
 		Assumptions: authzAssume, Models: relModels,
 		Explanation: "two symbolic executions of Authorize share all symbolic content: token T extended with block B versus T; the solver searches for content where the child is authorized and the parent is not",
